@@ -64,6 +64,28 @@ Theorem C30_early_logging_restore_refuted :
 Proof. exact early_logging_restore_refuted. Qed.
 Print Assumptions C30_early_logging_restore_refuted.
 
+(* "Logging state as before" means the behaviour of existing loggers, not only the number in
+   logging.root.manager.disable: Logger.isEnabledFor caches its answers per logger, logging.disable(...)
+   clears those caches, assigning the attribute does not.  [cache_ok]: the cached answer (if any) agrees
+   with the disable level, as it always does when logging is used through its public API.  After any test
+   case (finished or timed out) the logger of the module under test answers isEnabledFor(ERROR) as before;
+   handing back only the number is refuted (witness: logging.disable(50); LOG.error(..)). *)
+Theorem C30_logging_behaviour_restored : forall e t s,
+  cache_ok s -> log_loud (fst (exec_test e t s)) = log_loud s.
+Proof. exact logging_behaviour_restored. Qed.
+Print Assumptions C30_logging_behaviour_restored.
+
+Theorem C30_logging_behaviour_restored_timeout : forall e t1 t2 s,
+  cache_ok s -> log_loud (exec_timeout e t1 t2 s) = log_loud s.
+Proof. exact logging_behaviour_restored_timeout. Qed.
+Print Assumptions C30_logging_behaviour_restored_timeout.
+
+Theorem C30_level_only_restore_refuted :
+  exists e t s, cache_ok s /\ logd (exec_test_level_only e t s) = logd s /\
+                log_loud (exec_test_level_only e t s) <> log_loud s.
+Proof. exact level_only_restore_refuted. Qed.
+Print Assumptions C30_level_only_restore_refuted.
+
 Theorem C30_restore_idempotent : forall sv s, restore sv (restore sv s) = restore sv s.
 Proof. exact restore_idempotent. Qed.
 Print Assumptions C30_restore_idempotent.
@@ -77,12 +99,13 @@ Print Assumptions C30_view_invariant_over_executions.
 (* For tests that do not read hidden module state, the result (which statements ran, which
    exception ended the test) does not depend on anything that ran before. *)
 Theorem C30_order_independent : forall e items t s,
-  reads_hidden t = false -> result e t (run_items e s items) = result e t s.
+  reads_hidden t = false -> cache_ok s -> result e t (run_items e s items) = result e t s.
 Proof. exact order_independent. Qed.
 Print Assumptions C30_order_independent.
 
 Theorem C30_result_depends_on_ambient_only : forall e t s1 s2,
-  reads_hidden t = false -> ambient s1 = ambient s2 -> result e t s1 = result e t s2.
+  reads_hidden t = false -> cache_ok s1 -> cache_ok s2 -> ambient s1 = ambient s2 ->
+  result e t s1 = result e t s2.
 Proof. exact result_depends_on_ambient_only. Qed.
 Print Assumptions C30_result_depends_on_ambient_only.
 
